@@ -15,6 +15,8 @@ namespace Aiorpcx.Socks
 
 abbrev Bytes := List UInt8
 
+deriving instance DecidableEq for Except
+
 inductive PyExc where
   | socksProtocolError
   | socksFailure
